@@ -1,7 +1,10 @@
 (* PV.C12.Properties — the property theorems of C12 and nothing else.
    [engine_ok G] is what is assumed of the symbolic engines (sympy.srepr / parse_expr for Expr,
    Matrix, Unit; decidable equality): see Model.v.  json.dumps and sha256 enter only through the
-   pairwise hypotheses [dumps_sep] / [H_sep] written in the statements. *)
+   pairwise hypotheses [dumps_sep] / [H_sep] written in the statements.
+   State after the fix commits cee2988 (from_dict restores tuples), e582408 (categories written as
+   a plain dict), ddb8814 (ModelHash encodes systems in name order), 30e26dc (generic read) and
+   876afb2 (== of systems without dose): the guards those defects required are gone. *)
 From Coq Require Import QArith ZArith List Bool Arith String.
 From PV Require Import C12.Model C12.Proofs.
 Local Open Scope string_scope.
@@ -13,12 +16,12 @@ Theorem json_normal_idempotent :
   forall v : pyv, normalise (normalise v) = normalise v.
 Proof. exact normalise_idem_all. Qed.
 
-(* ... it contains no tuple, no int key and no non-dict mapping ... *)
+(* ... it contains no tuple and no int key ... *)
 Theorem json_normal_is_json :
-  forall v : pyv, jsonable v = true -> is_json (normalise v) = true.
+  forall v : pyv, is_json (normalise v) = true.
 Proof. exact normalise_is_json_lemma. Qed.
 
-(* ... and exactly the values without tuples / int keys / mappings survive the text unchanged. *)
+(* ... and exactly the values without tuples / int keys survive the text unchanged. *)
 Theorem json_normal_fixpoint :
   forall v : pyv, is_json v = true -> normalise v = v.
 Proof. exact normalise_fix_lemma. Qed.
@@ -37,7 +40,7 @@ Proof. exact vlevel_roundtrip. Qed.
 Theorem variability_hierarchy_roundtrip : forall h : list vlevel, hier_from_dict (hier_to_dict h) = Some h.
 Proof. exact hier_roundtrip. Qed.
 
-(* Normal and joint normal distributions (names kept verbatim: tuple stays tuple, list stays list). *)
+(* Normal and joint normal distributions. *)
 Theorem distribution_roundtrip :
   forall G, engine_ok G -> forall x : dist G, dist_from_dict G (dist_to_dict G x) = Some x.
 Proof. exact dist_roundtrip. Qed.
@@ -92,7 +95,8 @@ Theorem estimation_step_roundtrip_image :
   forall G (e : eststep G), est_from_dict G (est_to_dict G e) = Some (est_flat G e).
 Proof. exact est_roundtrip. Qed.
 
-(* ... hence unchanged when the derivatives are already a tuple of texts (the default ()). *)
+(* ... hence unchanged when the derivatives are already a tuple of texts (the default ()).
+   (guard: C12-DERIVATIVES-TEXT, open) *)
 Theorem estimation_step_roundtrip :
   forall G (e : eststep G), derivs_canon G (es_derivatives G e) = true ->
     est_from_dict G (est_to_dict G e) = Some e.
@@ -103,7 +107,8 @@ Theorem execution_steps_roundtrip :
     steps_from_dict G (steps_to_dict G l) = Some l.
 Proof. exact execution_steps_roundtrip_thm. Qed.
 
-(* ColumnInfo.to_dict (unit as srepr) and the per-column dictionary of DataInfo (unit as str). *)
+(* ColumnInfo.to_dict (unit as srepr) and the per-column dictionary of DataInfo (unit as str), with
+   None / tuple / mapping categories: the mapping is written as a plain dict and read back. *)
 Theorem column_roundtrip :
   forall G, engine_ok G -> forall c : column G, column_from_dict G (column_to_dict G c) = Some c.
 Proof. exact Proofs.column_roundtrip. Qed.
@@ -131,20 +136,19 @@ Theorem compartmental_system_to_dict_injective :
     cs_ok G a = true -> cs_ok G b = true -> cs_to_dict G a = cs_to_dict G b -> a = b.
 Proof. exact compartmental_system_to_dict_injective_thm. Qed.
 
-(* Order is the only thing == does not see: for two systems that == calls equal, the dictionaries
-   are equal exactly when the graphs enumerate nodes and successors in the same order. *)
+(* For two systems that == calls equal, the dictionaries are equal exactly when the graphs
+   enumerate nodes and successors in the same order (to_dict itself is still order dependent;
+   the key no longer is, see hash_order_blind). *)
 Theorem compartmental_system_dict_iff_order :
   forall G, engine_ok G -> forall a b : csys G,
-    cs_ok G a = true -> cs_ok G b = true -> cs_eq G a b = Some true ->
+    cs_ok G a = true -> cs_ok G b = true -> cs_eq G a b = true ->
     (cs_to_dict G a = cs_to_dict G b <-> same_enum G (cs_g G a) (cs_g G b) = true).
 Proof. exact cs_dict_iff_order. Qed.
 
-(* ... and statement lists that == calls equal and that enumerate their systems in the same order
-   are the same list: the same dictionary and, in a model, the same key. *)
 Theorem statements_equal_same_order :
   forall G, engine_ok G -> forall l l' : list (stmt G),
     forallb (stmt_ok G) l = true -> forallb (stmt_ok G) l' = true ->
-    stmts_eq G l l' = Some true -> zip_all (stmt_same_enum G) l l' = true -> l = l'.
+    stmts_eq G l l' = true -> zip_all (stmt_same_enum G) l l' = true -> l = l'.
 Proof. exact stmts_eq_same_enum. Qed.
 
 (* ---- from_dict(to_dict(x)) == x with the implementation's own == ---- *)
@@ -159,17 +163,16 @@ Theorem random_variables_roundtrip_eq :
     exists q, rvs_from_dict G (rvs_to_dict G r) = Some q /\ rvs_eqb G q r = true.
 Proof. exact random_variables_roundtrip_eq_thm. Qed.
 
-(* == on systems raises when there is no dosing compartment; where it is defined it says True *)
+(* == is defined on every system (with or without a dosing compartment: 876afb2) and says True *)
 Theorem compartmental_system_roundtrip_eq :
   forall G, engine_ok G -> forall s : csys G,
-    cs_ok G s = true -> dosing G (cs_g G s) <> None ->
-    exists q, cs_from_dict G (cs_to_dict G s) = Some q /\ cs_eq G q s = Some true.
+    cs_ok G s = true -> exists q, cs_from_dict G (cs_to_dict G s) = Some q /\ cs_eq G q s = true.
 Proof. exact compartmental_system_roundtrip_eq_thm. Qed.
 
 Theorem statements_roundtrip_eq :
   forall G (GOK : engine_ok G) (l : list (stmt G)),
-    forallb (stmt_ok G) l = true -> forallb (stmt_eq_ok G) l = true ->
-    exists q, stmts_from_dict G (stmts_to_dict G l) = Some q /\ stmts_eq G q l = Some true.
+    forallb (stmt_ok G) l = true ->
+    exists q, stmts_from_dict G (stmts_to_dict G l) = Some q /\ stmts_eq G q l = true.
 Proof. exact statements_roundtrip_eq_thm. Qed.
 
 (* ---- from_dict_ignores_normalise: the way back through the JSON text ---- *)
@@ -177,10 +180,15 @@ Proof. exact statements_roundtrip_eq_thm. Qed.
 Theorem parameters_json_roundtrip : forall l, params_from_dict (normalise (params_to_dict l)) = Some l.
 Proof. exact params_json. Qed.
 
-(* Random variables come back with every joint distribution's names as a list ([rvs_json]) ... *)
-Theorem random_variables_json_image :
-  forall G, engine_ok G -> forall r : rvs G, rvs_from_dict G (normalise (rvs_to_dict G r)) = Some (rvs_json G r).
+(* Random variables come back unchanged: from_dict restores the names tuple (cee2988). *)
+Theorem random_variables_json_roundtrip :
+  forall G, engine_ok G -> forall r : rvs G, rvs_from_dict G (normalise (rvs_to_dict G r)) = Some r.
 Proof. exact rvs_json_lemma. Qed.
+
+Theorem random_variables_json_roundtrip_eq :
+  forall G, engine_ok G -> forall r : rvs G,
+    exists q, rvs_from_dict G (normalise (rvs_to_dict G r)) = Some q /\ rvs_eqb G q r = true.
+Proof. exact random_variables_json_roundtrip_eq_thm. Qed.
 
 Theorem compartmental_system_json_roundtrip :
   forall G, engine_ok G -> forall s : csys G,
@@ -193,19 +201,20 @@ Theorem statements_json_roundtrip :
     forallb (stmt_ok G) l = true -> stmts_from_dict G (normalise (stmts_to_dict G l)) = Some l.
 Proof. exact stmts_json. Qed.
 
-(* ... execution steps with residuals / predictions / derivatives as lists and tool options
-   normalised ([step_json]) ... *)
+(* Execution steps: residuals and predictions come back as tuples; what still changes is what is
+   held verbatim: tool options are normalised, derivatives are texts ([step_json]). *)
 Theorem execution_steps_json_image :
   forall G (l : list (step G)), steps_from_dict G (normalise (steps_to_dict G l)) = Some (map (step_json G) l).
 Proof. exact steps_json. Qed.
 
-(* ... a datainfo with normalised categories and no path ... *)
+(* A datainfo: tuple categories come back as tuples, mapping categories as mappings; their values
+   / keys are normalised ([di_json]); no path. *)
 Theorem datainfo_json_image :
   forall G, engine_ok G -> forall x : datainfo G, di_from_dict G (normalise (di_to_dict G x)) = Some (di_json G x).
 Proof. exact di_json_lemma. Qed.
 
-(* ... and a model is read back from its generic code (json.loads, then from_dict) as its JSON
-   image [model_json]: exact characterisation, no guard on the contents. *)
+(* A model is read back from its generic code (json.loads, then from_dict) as its JSON image
+   [model_json]: exact characterisation, no guard on the contents. *)
 Theorem model_json_image :
   forall G, engine_ok G -> forall m : model G,
     forallb (stmt_ok G) (m_statements G m) = true -> depvars_ok G m ->
@@ -213,12 +222,13 @@ Theorem model_json_image :
     model_from_dict G (normalise (model_to_dict G m)) = Some (model_json G m).
 Proof. exact model_json_lemma. Qed.
 
-(* The JSON image is the model itself (up to name / description / path) exactly when nothing in it
-   is a verbatim tuple, int-keyed dictionary or mapping: full round trip for JSON-stable models. *)
+(* The generic model code parses back to the model itself (up to name / description / path): no
+   condition on tuple-valued fields any more (cee2988).  Remaining guards: derivatives are texts
+   (C12-DERIVATIVES-TEXT, open) and nothing held verbatim has an int key or a nested tuple
+   (C12-JSON-INTKEY, open). *)
 Theorem model_json_roundtrip :
   forall G, engine_ok G -> forall m : model G,
     forallb (stmt_ok G) (m_statements G m) = true -> depvars_ok G m ->
-    forallb (dist_json_ok G) (rv_dists G (m_rvs G m)) = true ->
     forallb (step_json_ok G) (m_steps G m) = true ->
     forallb (column_json_ok G) (di_columns G (m_datainfo G m)) = true ->
     (forall x, m_iie G m = Some x -> is_json x = true /\ x <> PNone) ->
@@ -237,20 +247,51 @@ Theorem to_dict_ignores_name_description_path :
   forall G (m : model G) nm de pa, model_to_dict G (with_meta G m nm de pa) = model_to_dict G m.
 Proof. exact to_dict_ignores_meta. Qed.
 
-(* Same dataset bytes and same dictionary: same key, whatever dumps and the digest are — in
+(* Same dataset bytes and same encoded dictionary: same key, whatever dumps and the digest are — in
    particular in every process and under every hash seed, as neither enters the definition. *)
 Theorem hash_same_dictionary :
   forall G dumps digest (H : string -> digest) ds (m m' : model G),
-    model_to_dict G (blank G m) = model_to_dict G (blank G m') ->
+    model_encode G (blank G m) = model_encode G (blank G m') ->
     key G dumps digest H ds m = key G dumps digest H ds m'.
 Proof. exact key_same_dict. Qed.
 
-(* hash_separates: models whose (JSON images of the) dictionaries differ get different keys, given
-   that dumps separates these two dictionaries and the digest these two inputs. *)
+(* hash_order_blind (was hash_order_refuted before ddb8814): replacing the statements of a model
+   by statements that == calls equal — the same systems entered in any other order of compartments
+   and flows, e.g. after a relabelling transformation and its inverse — does not change the key.
+   For all models whose systems are builder-shaped with distinct compartment names. *)
+Theorem hash_order_blind :
+  forall G dumps digest (H : string -> digest), engine_ok G -> forall ds (m : model G) (l' : list (stmt G)),
+    forallb (stmt_ok G) (m_statements G m) = true -> forallb (stmt_ok G) l' = true ->
+    forallb (stmt_names_distinct G) (m_statements G m) = true ->
+    stmts_eq G (m_statements G m) l' = true ->
+    key G dumps digest H ds (with_statements G m l') = key G dumps digest H ds m.
+Proof. exact key_order_blind. Qed.
+
+(* The encoding order itself: equal systems are encoded identically ... *)
+Theorem compartmental_system_encoding_order_blind :
+  forall G, engine_ok G -> forall a b : csys G,
+    graph_wf G (cs_g G a) = true -> graph_wf G (cs_g G b) = true -> names_distinct G (cs_g G a) = true ->
+    cs_eq G a b = true -> cs_canon G a = cs_canon G b.
+Proof. exact cs_canon_unique. Qed.
+
+(* ... in particular two builder histories of the same system ... *)
+Theorem builder_encoding_order_blind :
+  forall G, engine_ok G -> forall (ops ops' : list (bop G)) (t : expr G),
+    names_distinct G (run_bops G ops) = true ->
+    cs_eq G (mkCs G (run_bops G ops) t) (mkCs G (run_bops G ops') t) = true ->
+    cs_canon G (mkCs G (run_bops G ops) t) = cs_canon G (mkCs G (run_bops G ops') t).
+Proof. exact builder_encoding_order_blind_thm. Qed.
+
+(* ... and the re-ordered system is again one from_dict reads back exactly. *)
+Theorem encoding_order_well_formed :
+  forall G, engine_ok G -> forall s : csys G, cs_ok G s = true -> cs_ok G (cs_canon G s) = true.
+Proof. exact cs_canon_ok. Qed.
+
+(* hash_separates: models whose (JSON images of the) encoded dictionaries differ get different
+   keys, given that dumps separates these two dictionaries and the digest these two inputs. *)
 Theorem hash_separates :
   forall G dumps digest (H : string -> digest) ds (m m' : model G),
-    let d := model_to_dict G (blank G m) in let d' := model_to_dict G (blank G m') in
-    jsonable d = true -> jsonable d' = true ->
+    let d := model_encode G (blank G m) in let d' := model_encode G (blank G m') in
     dumps_sep dumps d d' -> H_sep H (ds ++ dumps d) (ds ++ dumps d') ->
     normalise d <> normalise d' ->
     key G dumps digest H ds m <> key G dumps digest H ds m'.
@@ -259,42 +300,32 @@ Proof. exact key_separates_model. Qed.
 (* The same model on different dataset bytes gets a different key. *)
 Theorem hash_separates_dataset :
   forall G dumps digest (H : string -> digest) ds ds' (m : model G),
-    let d := model_to_dict G (blank G m) in
-    jsonable d = true -> H_sep H (ds ++ dumps d) (ds' ++ dumps d) -> ds <> ds' ->
+    let d := model_encode G (blank G m) in
+    H_sep H (ds ++ dumps d) (ds' ++ dumps d) -> ds <> ds' ->
     key G dumps digest H ds m <> key G dumps digest H ds' m.
 Proof. exact key_separates_dataset. Qed.
 
-(* No false sharing: two models with the same key over the same data have the same JSON image,
-   i.e. agree on parameters, random variables, statements, steps, columns, value type, dependent
-   variables, observation transformation and initial estimates up to tuple/list and int/str keys.
-   (_partial: the converse "equal JSON image => equal key" is not proved; see Refuted for the
-   failing "== => equal key".) *)
-Theorem hash_sound_partial :
+(* No false sharing: two models with the same key over the same data have, once their systems are
+   put in the encoding order, the same JSON image: they agree on parameters, random variables,
+   statements (up to compartment order), steps, columns, value type, dependent variables,
+   observation transformation and initial estimates up to int/str keys of verbatim values. *)
+Theorem hash_sound :
   forall G, engine_ok G -> forall dumps digest (H : string -> digest) ds (m m' : model G),
-    let d := model_to_dict G (blank G m) in let d' := model_to_dict G (blank G m') in
+    let d := model_encode G (blank G m) in let d' := model_encode G (blank G m') in
     forallb (stmt_ok G) (m_statements G m) = true -> forallb (stmt_ok G) (m_statements G m') = true ->
     depvars_ok G m -> depvars_ok G m' ->
     (forall x, m_iie G m = Some x -> normalise x <> PNone) -> (forall x, m_iie G m' = Some x -> normalise x <> PNone) ->
     dumps_sep dumps d d' -> H_sep H (ds ++ dumps d) (ds ++ dumps d') ->
-    key G dumps digest H ds m = key G dumps digest H ds m' -> key G dumps digest H ds m <> None ->
-    model_json G m = model_json G m'.
+    key G dumps digest H ds m = key G dumps digest H ds m' ->
+    model_json G (model_canon G m) = model_json G (model_canon G m').
 Proof. exact key_sound_lemma. Qed.
 
-(* Conversely the JSON text is a function of the JSON image: two models with the same image get the
-   same key over the same data, given that dumps writes a value and its normal form alike (tuples
-   as lists, int keys as their text) for these two dictionaries.  With hash_sound_partial: over the
-   same data, same key <-> same JSON image. *)
+(* Conversely: the same image in the encoding order => the same key, given that dumps writes a value
+   and its normal form alike for these two dictionaries.  With hash_sound: over the same data,
+   same key <-> same JSON image in encoding order. *)
 Theorem hash_complete :
   forall G dumps digest (H : string -> digest) ds (m m' : model G),
-    (forall v, v = model_to_dict G (blank G m) \/ v = model_to_dict G (blank G m') -> dumps (normalise v) = dumps v) ->
-    model_values_jsonable G m = true -> model_values_jsonable G m' = true ->
-    jsonable (model_to_dict G (blank G m)) = jsonable (model_to_dict G (blank G m')) ->
-    model_json G m = model_json G m' ->
+    (forall v, v = model_encode G (blank G m) \/ v = model_encode G (blank G m') -> dumps (normalise v) = dumps v) ->
+    model_json G (model_canon G m) = model_json G (model_canon G m') ->
     key G dumps digest H ds m = key G dumps digest H ds m'.
 Proof. exact key_complete_lemma. Qed.
-
-(* The key exists exactly when json.dumps accepts the dictionary. *)
-Theorem hash_defined_iff_jsonable :
-  forall G dumps digest (H : string -> digest) ds (m : model G),
-    (exists k, key G dumps digest H ds m = Some k) <-> jsonable (model_to_dict G (blank G m)) = true.
-Proof. exact key_defined_iff. Qed.
